@@ -21,7 +21,8 @@ Inductive merr : Type :=
 | MENoCodec         (* "not a registered message and no codec configured" *)
 | MERecovered       (* panic inside a message writer, recovered by SerializeRemotingMessage into an error *)
 | MEBadRef          (* the ActorRef factory (actor.NewRef) rejected an (address, path) pair *)
-| MECrash           (* panic that nothing recovers: the process crashes *)
+| MECrash           (* panic that nothing recovers: the process crashes (no model function produces it any more;
+                       the harness reports an unrecovered panic of the real code with this code) *)
 | MEFuel.           (* decoder fuel exhausted (model artefact; proved unreachable) *)
 
 Inductive mres (A : Type) : Type := MOk (a : A) | MErr (e : merr).
